@@ -105,7 +105,76 @@ Definition status_of (s : string) : status :=
 
 Definition is_fetch_op (i : term) : bool := String.eqb (gs (gn i 3)) "fetch".
 
+(* ---- end-to-end op "pprof": slots 0/1 are TABLES of distinct names; slot 4 = [source ids named on
+   the command line; base ids; output format; flags (1 = -diff_base, 2 = an extra empty base value)] *)
+Definition is_pprof_op (i : term) : bool := String.eqb (gs (gn i 3)) "pprof".
+Definition e2e_format (i : term) : Z := gz (gn (gn i 4) 2).
+
+Definition dedup_strs (l : list string) : list string :=
+  fold_left (fun acc c => if existsb (String.eqb c) acc then acc else acc ++ [c])%list l [].
+
+(* what the output format lets one read back of the profile reported on: a re-read proto shows the
+   comments as combineHeaders leaves them (de-duplicated, which the toy merge does not model); the
+   legend of -top lists them the same way *)
+Definition e2e_proj (fmt : Z) (p : tprof) : tprof :=
+  {| tp_type := tp_type p;
+     tp_comments := dedup_strs (tp_comments p);
+     tp_samples := tp_samples p |}.
+
+Definition dummy_source : source tprof := {| s_addr := "?"; s_res := GErr "?" |}.
+
+Definition positions (ids : list Z) (n : nat) : list nat :=
+  map fst (filter (fun pz => snd pz =? Z.of_nat n) (List.combine (seq 0 (List.length ids)) ids)).
+
+(* MODEL of the glue: cli_source_lists on the ids, then table lookup; a fetch of name n completing =
+   every position naming n completing *)
+Definition e2e_lists (conn : Z -> bool) (i : term)
+  : option (list (source tprof) * list (source tprof) * list nat * list nat) :=
+  let ts := sources_of conn 0 0 (gl (gn i 0)) in
+  let tb := sources_of conn 1 0 (gl (gn i 1)) in
+  let x := gn i 4 in
+  let flags := gz (gn x 3) in
+  let bvals := match gzs (gn x 1) with
+               | [] => if flags / 2 mod 2 =? 1 then [-1] else []
+               | b0 :: r => if flags / 2 mod 2 =? 1 then b0 :: -1 :: r else b0 :: r
+               end in
+  let cli := if flags mod 2 =? 1
+             then cli_source_lists Z (fun z => z <? 0) false (gzs (gn x 0)) [] bvals
+             else cli_source_lists Z (fun z => z <? 0) false (gzs (gn x 0)) bvals [] in
+  match cli with
+  | CliErr => None
+  | CliOk s b _ =>
+      Some (map (fun id => nth (Z.to_nat id) ts dummy_source) s,
+            map (fun id => nth (Z.to_nat id) tb dummy_source) b,
+            flat_map (positions s) (sched_of 0 (gn i 2)),
+            flat_map (positions b) (sched_of 1 (gn i 2)))
+  end.
+
+(* SPECIFICATION's reading of the command line, without the model's parser: the sources are the
+   positional arguments as written, the bases the non-empty -base / -diff_base values as written *)
+Definition e2e_lists_spec (conn : Z -> bool) (i : term) : list (source tprof) * list (source tprof) :=
+  let ts := sources_of conn 0 0 (gl (gn i 0)) in
+  let tb := sources_of conn 1 0 (gl (gn i 1)) in
+  (map (fun id => nth (Z.to_nat id) ts dummy_source) (gzs (gn (gn i 4) 0)),
+   map (fun id => nth (Z.to_nat id) tb dummy_source) (gzs (gn (gn i 4) 1))).
+
+Definition fetch_obs (o : gsb_out tprof) : term :=
+    let '(st, p) := match toy_fetch_profiles o with
+                    | FoStatus st => (status_str st, None)
+                    | FoDiffErr => ("err-diff", None)
+                    | FoOk p => ("ok", Some p)
+                    end in
+    TL [TS st; of_otprof p; TL []; TZ 0; of_ss (g_err_src o); of_ss (g_err_base o);
+        (if String.eqb st "ok" then of_ss (g_tail o) else TL []); TL []].
+
 Definition run_C16 (i : term) : term :=
+  if is_pprof_op i then
+    match e2e_lists (conn_model i) i with
+    | None => TL [TS "cli-err"]
+    | Some (srcs, bases, ss, sb) =>
+        fetch_obs (grab_sources_and_bases tprof toy_combine chunk_size srcs bases ss sb)
+    end
+  else
   let srcs := sources_of (conn_model i) 0 0 (gl (gn i 0)) in
   let bases := sources_of (conn_model i) 1 0 (gl (gn i 1)) in
   let o := grab_sources_and_bases tprof toy_combine chunk_size srcs bases (sched_of 0 (gn i 2)) (sched_of 1 (gn i 2)) in
@@ -132,12 +201,24 @@ Definition eqv_C16 (i m o : term) : bool :=
   | TL [TS st; ps; pb; sv; es; eb; tl; mu], TL [TS st'; ps'; pb'; sv'; es'; eb'; tl'; mu'] =>
       String.eqb st st' &&
       (if String.eqb st "err-src" || String.eqb st "err-base" || String.eqb st "err-diff" then true
-       else toy_opt_eqvb (otprof_of ps) (otprof_of ps') && toy_opt_eqvb (otprof_of pb) (otprof_of pb')
+       else let pj := if is_pprof_op i then option_map (e2e_proj (e2e_format i)) else (fun x => x) in
+            toy_opt_eqvb (pj (otprof_of ps)) (pj (otprof_of ps')) && toy_opt_eqvb (otprof_of pb) (otprof_of pb')
             && term_eqb sv sv' && term_eqb es es' && term_eqb eb eb' && term_eqb tl tl' && term_eqb mu mu')
   | _, _ => term_eqb m o
   end.
 
 Definition spec_C16 (i o : term) : bool :=
+  if is_pprof_op i then
+    (* end to end: the lists named on the command line (every mention), each source judged alone, the
+       profile read back from the output; all fetches of the run were in flight together and each
+       named source was fetched once per mention (last slot empty) *)
+    match e2e_lists_spec (conn_alone i) i, o with
+    | (srcs, bases), TL [TS st; ps; _; _; es; eb; _; mu] =>
+        spec_fetch_check_gen (e2e_proj (e2e_format i)) srcs bases (String.eqb st "ok") (status_of st) (otprof_of ps) (gss es) (gss eb)
+        && is_nil (gl mu)
+    | _, _ => false
+    end
+  else
   let srcs := sources_of (conn_alone i) 0 0 (gl (gn i 0)) in
   let bases := sources_of (conn_alone i) 1 0 (gl (gn i 1)) in
   match o with
